@@ -101,7 +101,8 @@ def run(ctx: Context) -> None:
             a0 = [norm(c.args[0])] if c.args and norm(c.args[0]) == "event.flow_controlled_length" else \
                 ([norm(a) for a in ctx.prov.expand(c.args[0], rb, c, depth=1)] if c.args else [])
             g = guard_atoms(guards_of(c))
-            ok = a0 == ["event.flow_controlled_length"] and [norm(a) for a in c.args[1:]] == ["stream_id"] and "isinstance(event,h2.events.DataReceived)" in g and len(g) == 1
+            g_eff = {a for a in g if not (a.startswith("not:isinstance(event,h2.events.") and "DataReceived" not in a)}
+            ok = a0 == ["event.flow_controlled_length"] and [norm(a) for a in c.args[1:]] == ["stream_id"] and g_eff == {"isinstance(event,h2.events.DataReceived)"}
             detail = f"acknowledge_received_data({a0}, {[norm(a) for a in c.args[1:]]}) under {sorted(g)}"
             blk = parent(parent(c))
             sibs = getattr(blk, "body", [])
